@@ -55,8 +55,8 @@ def debounce_(
 
             def action(scheduler: abc.SchedulerBase, state: Any = None) -> None:
                 should_emit = has_value[0] and _id[0] == current_id
-                has_value[0] = False
                 if should_emit:
+                    has_value[0] = False
                     observer.on_next(value[0])
 
             d.disposable = _scheduler.schedule_relative(duetime, action)
@@ -133,8 +133,8 @@ def throttle_with_mapper_(
             def on_next(x: Any) -> None:
                 nonlocal has_value
                 should_emit = has_value and _id[0] == current_id
-                has_value = False
                 if should_emit:
+                    has_value = False
                     observer.on_next(value)
 
                 d.dispose()
@@ -142,8 +142,8 @@ def throttle_with_mapper_(
             def on_completed() -> None:
                 nonlocal has_value
                 should_emit = has_value and _id[0] == current_id
-                has_value = False
                 if should_emit:
+                    has_value = False
                     observer.on_next(value)
 
                 d.dispose()
